@@ -324,9 +324,9 @@ func c17Levels(tier string) []core.Level {
 			}
 		}},
 	}
-	lv = append(lv, core.Level{Name: "run-time error (3 kinds) inside an expression position of every tag kind: with-hashes, template names, conditions, sequences, arguments, captures, macro bodies", Gen: func(emit func(core.Case)) {
+	lv = append(lv, core.Level{Name: "run-time error (7 kinds: undeclared function / filter / test, modulo by zero, membership in a number / a struct, a pattern that does not compile) inside an expression position of every tag kind: with-hashes, template names, conditions, sequences, arguments, captures, macro bodies", Gen: func(emit func(core.Case)) {
 		for i := range c17ArgForms {
-			for k := 0; k < 3; k++ {
+			for k := range c17ErrExprs {
 				emit(core.Case{Fam: "rtarg", N: []int{i, k}})
 			}
 		}
@@ -468,9 +468,13 @@ func c17RunFS(c core.Case) core.Result {
 	return core.Okay(true, "err")
 }
 
+// c17ErrExprs: the kinds of run-time error an expression can raise: an undeclared function, filter or test, modulo by
+// zero, membership in something that cannot be traversed (the error of a for loop over it), a pattern that does not compile
+var c17ErrExprs = []string{"nofunc()", "(1 % 0)", "(a|nofilter)", "(a is nosuchtest)", "(1 in 5)", "('k' not in obj)", "('x' matches '[')"}
+
 func c17RunArg(c core.Case) core.Result {
 	form := c17ArgForms[c.N[0]]
-	errExpr := []string{"nofunc()", "(1 % 0)", "(a|nofilter)"}[c.N[1]]
+	errExpr := c17ErrExprs[c.N[1]]
 	p := c17Exec(strings.ReplaceAll(form, "ERR", "mark()"), false, 0, 0, 0)
 	if p.pan != "" {
 		return core.Skipped("probe-panics")
